@@ -21,25 +21,31 @@ beta_k  = sum_j |â_j| per entry of P_k, â = exact Chebyshev coefficients of th
           matrices  >= |f| on the box and >= every partial sum formed.
 kappa_k = |a_k + b_k| / (b_k - a_k): amplification of the rounding of
           s = (x - (a+b)/2) * (2/(b-a)), |ds| <= (kappa + 3) eps.
-per core, relative to beta_k:
-  (a) coefficients: any summation order of the length-n cosine sum has
-      |da_j| <= (n/2 + 2) eps * (2/(n-1)) sum_i |y_i| <= (2n + 8) beta eps,
-      so sum_j |da_j| <= 6 n^2 beta eps (input values carry eps/2 each, incl.);
+per core, relative to beta_k (n = n_k, r = r_k):
+  (a) coefficients: one output of the length-n cosine sum carries
+      |da_j| <= (n + 8) eps * ybar, ybar = (2/(n-1)) sum_i |y_i|, whatever the
+      summation order (direct: (n/2 + 2) eps; FFT: ~3 log2(2n) eps per output
+      relative to the 1-norm; the eps/2 of the input values included);
+      ybar <= (2n/(n-1)) max|y| <= (2n/(n-1)) beta, so
+      sum_j |da_j| <= 2 n^2 (n + 8)/(n - 1) * beta eps;
   (b) basis: three-term recurrence error <= 2 j^2 eps, argument sensitivity
       |T_j'| <= j^2 (Markov): sum_j |â_j| |dT_j| <= n^2 (kappa + 5) beta eps;
   (c) contraction over j and over the rank index: (n + r) eps / 2.
-  => g_k = n_k^2 (kappa_k + 13) + r_k   and   tol = S eps (sum_k g_k) U
+  => g_k = 2 n^2 (n+8)/(n-1) + n^2 (kappa_k + 5) + n + r
+     tol = S eps (sum_k g_k) U
      (+ the error of the longdouble reference itself, LDEPS * n^2 * absbound).
-integral: Clenshaw-Curtis weights sum to <= 3, so
-  g_k = 4 n_k + r_k + 15 relative to U * prod (b_k - a_k).
-coefficient tensors (TT vs dense transform): (a) only, both routines:
-  g_k = 6 n_k + 24 + r_k relative to U.
+integral: Clenshaw-Curtis weights sum to <= 3 in modulus, the scale is
+  U * prod (b_k - a_k):  g_k = 3 n (n+8)/(n-1) + n/4 + r + 3.
+coefficient tensors (TT vs dense transform): (a) only, for both routines:
+  g_k = 4 n (n+8)/(n-1) + 2 relative to U.
 differentiation matrices: ||D^(m)||_inf <= Lambda_n (2/(b-a))^m (n-1)^(2m)
   (Markov, Lebesgue constant Lambda_n <= 4 for n <= 60); entries and the
   matrix-vector product carry (n + 8) eps relative to the row sums, the
   recursion over the order adds a factor m:
   tol = S * 4 (n + 8) m * eps * beta * (2/(b-a))^m (n-1)^(2m)
-  (probed worst ratio on 6000 correct executions: 0.06 of this tolerance).
+  (worst ratio observed on ~3000 correct executions per run: < 0.01 of this
+  tolerance; the other monitors stay below 0.02 of theirs — the model is a
+  worst-case bound, any structural error is O(1) relative to U).
 least squares in a user basis: backward error of LAPACK gelsd taken as
   n^2 eps ||H||, hence |dq| <= 2 n^2 cond(H) eps |q|; design matrices with
   cond(H) > 1e3 are *not judged* (the routine cuts singular values below
@@ -74,6 +80,7 @@ REQUIRED = {
     'tt-dense-agree': 30, 'diff': 60, 'inverse': 30, 'linear': 30,
     'sin-inverse': 30, 'sin-linear': 30, 'general': 30, 'general-get': 30,
     'general-callable': 30, 'shape': 100}
+REQUIRED_EVENTS = {'default-box': 5}      # a = b = None was exercised
 ASSUMPTIONS = [
     'numpy.polynomial (polyval, chebval, polyint, chebint, polyder, chebder) '
     'evaluated in numpy longdouble (64-bit mantissa) is the reference',
@@ -86,7 +93,7 @@ ASSUMPTIONS = [
     'judged (clamping is implementation behaviour, the statement fixes only '
     'the fill value when skipping is on)']
 SHARDS = {'quick': 12, 'thorough': 16}
-BUDGET_S = {'quick': 240, 'thorough': 1500}
+BUDGET_S = {'quick': 240, 'thorough': 2400}   # headroom for a loaded machine
 
 S = 10.
 LDEPS = float(np.finfo(LD).eps)
@@ -96,13 +103,32 @@ FAMS = ['tt', 'tt', 'tt', 'dense', 'dense', 'diff', 'lin', 'general']
 
 
 def gen_cases(seed, tier):
-    n = 640 if tier == 'quick' else 16000
+    n = 12000 if tier == 'quick' else 600000
     rng = np.random.default_rng([seed, 112])
-    out = []
-    for j in range(n):
-        out.append({'seed': int(rng.integers(1 << 62)),
-            'fam': FAMS[j % len(FAMS)], 'big': tier != 'quick'})
-    return out
+    # the family is drawn (not cycled) so that every shard sees them all
+    seeds = rng.integers(1 << 62, size=n).tolist()
+    fams = rng.integers(len(FAMS), size=n).tolist()
+    big = tier != 'quick'
+    return [{'seed': s, 'fam': FAMS[f], 'big': big}
+        for s, f in zip(seeds, fams)]
+
+
+_SAMPLED = set()
+
+
+def sample_once(ctx, fam, obj, more=None):
+    """One written-out case per family and worker (the evidence keeps few).
+
+    `more` (other oracles of the same case) is written as a second sample
+    when this is the very first case of the worker.
+    """
+    if fam not in _SAMPLED:
+        _SAMPLED.add(fam)
+        first = not ctx.samples
+        ctx.sample(obj)
+        if first and more is not None:
+            head = {k: obj[k] for k in ('family', 'model') if k in obj}
+            ctx.sample({**head, **more})
 
 
 # ---- grids, boxes, models -----------------------------------------------------
@@ -264,8 +290,15 @@ class Model:
 
     def g(self, kap=None):
         kap = kappa(self.a, self.b) if kap is None else kap
-        return sum(self.n[k] ** 2 * (kap[k] + 13.) + self.r[k + 1]
+        return sum(g_core(self.n[k], kap[k], self.r[k + 1])
             for k in range(self.d))
+
+    def g_sum(self):
+        return sum(3 * m * (m + 8) / (m - 1) + m / 4 + self.r[k + 1] + 3
+            for k, m in enumerate(self.n))
+
+    def g_coef(self):
+        return sum(4 * m * (m + 8) / (m - 1) + 2 for m in self.n)
 
     def referr(self, absb):
         return 4 * LDEPS * sum(m * m for m in self.n) * absb
@@ -277,6 +310,11 @@ class Model:
         return {'basis': self.basis, 'n': self.n, 'ranks': self.r,
             'a': self.a, 'b': self.b,
             'coefficients_core0': np.asarray(self.C[0], dtype=float)}
+
+
+def g_core(n, kap, r):
+    """Per-core error constant of the rounding model (module docstring)."""
+    return 2. * n * n * (n + 8) / (n - 1) + n * n * (kap + 5.) + n + r
 
 
 def chain(Vs):
@@ -451,6 +489,12 @@ def run_case(case, ctx):
         'general': case_general}[case['fam']](case, ctx, teneva, rng)
 
 
+def advisory_unchanged(ctx, same):
+    """Argument mutation is C09's subject: counted, never judged here."""
+    ctx.event('advisory:arguments-unchanged' if same
+        else 'advisory:ARGUMENT-MODIFIED')
+
+
 def well(ctx, Z, n, what):
     why = ref.wellformed(Z, n, finite=True)
     return ctx.check('shape', why is None, f'{what}: malformed TT: {why}')
@@ -530,19 +574,23 @@ def case_tt(case, ctx, teneva, rng):
     u = rng.random()
     if u < 0.15:
         m = [m[0]] * d
-        marg = m[0]
+        marg = m[0] if rng.random() < .7 else float(m[0])
     elif u < 0.3:
         m = [n[k] + int(rng.integers(-1, 2)) for k in range(d)]
         m = [max(2, x) for x in m]
         marg = list(m)
     else:
         marg = list(m) if rng.random() < .5 else np.array(m)
+    gets_s = None
     Z = teneva.func_gets(Ause, marg)
     if well(ctx, Z, m, f'func_gets(m={m})'):
         I = sample_idx(rng, m)
         fG, fGabs = mdl.f(grid_points(mdl, m, I))
-        ctx.close('gets', tt_at(Z, I), fG, mdl.tol_val(fGabs, [0.] * d),
+        ZI = tt_at(Z, I)
+        ctx.close('gets', ZI, fG, mdl.tol_val(fGabs, [0.] * d),
             'func_gets on a new grid vs f on that grid', m=m, n=n, box=[a, b])
+        gets_s = {'multi_index': I[-1], 'observed': float(ZI[-1]),
+            'f_at_that_node': float(fG[-1])}
     Z0 = teneva.func_gets(Ause)
     if well(ctx, Z0, n, 'func_gets(m=None)'):
         I = sample_idx(rng, n)
@@ -554,27 +602,27 @@ def case_tt(case, ctx, teneva, rng):
     # --- func_sum: exact integral for any box
     ex, exabs = mdl.integral()
     vol = float(np.prod([y_ - x_ for x_, y_ in zip(a, b)]))
-    gs = sum(4 * n[k] + mdl.r[k + 1] + 15 for k in range(d))
-    tsum = S * EPS * gs * mdl.U() * vol + mdl.referr(exabs)
+    tsum = S * EPS * mdl.g_sum() * mdl.U() * vol + mdl.referr(exabs)
     got = teneva.func_sum(Ause, as_arg(rng, a), as_arg(rng, b))
     ctx.close('sum', got, ex, tsum, 'func_sum vs the exact integral over '
         'the box', box=[a, b], n=n, basis=basis)
     ctx.check('shape', np.ndim(got) == 0, 'func_sum did not return a scalar')
 
     d_in = snap.diff()
-    ctx.check('args-unchanged', not d_in and all(np.array_equal(g, h)
-        for g, h in zip(A, Ause)), 'an argument of the func_* routines was '
-        f'modified: {d_in}')
+    advisory_unchanged(ctx, not d_in and all(np.array_equal(g, h)
+        for g, h in zip(A, Ause)))
     if is_nontrivial(mdl):
         ctx.nontrivial(['tt', basis, mdl.struct, n, mdl.r, mdl.bkind])
-    ctx.sample({'family': 'tt', 'model': mdl.describe(),
+    sample_once(ctx, 'tt', {'family': 'tt', 'model': mdl.describe(),
         'structure': mdl.struct, 'box_kind': mdl.bkind,
         'point_inside': X[0], 'func_get_observed': float(y[0]),
         'f_reference': float(fX[0]), 'tolerance': float(tol[0]),
         'point_outside': X[-1], 'fill_value': z,
-        'func_get_outside_observed': float(y[-1]),
-        'func_sum_observed': float(got), 'integral_reference': float(ex),
-        'integral_tolerance': float(tsum)})
+        'func_get_outside_observed': float(y[-1])},
+        more={'oracle': 'func_sum / func_gets', 'func_sum_observed':
+        float(got), 'integral_reference': float(ex),
+        'integral_tolerance': float(tsum), 'new_grid_sizes': m,
+        'func_gets_entry': gets_s})
 
 
 def case_dense(case, ctx, teneva, rng):
@@ -598,7 +646,7 @@ def case_dense(case, ctx, teneva, rng):
             f'for n={n} or non-finite'):
         return
     U = mdl.U()
-    tcoef = S * EPS * sum(6 * n[k] + 24 + mdl.r[k + 1] for k in range(d)) * U
+    tcoef = S * EPS * mdl.g_coef() * U
     Att = None
     if d >= 2:
         Att = teneva.func_int(Y)
@@ -665,8 +713,7 @@ def case_dense(case, ctx, teneva, rng):
     # --- func_sum_full: exact for a = -b, ValueError otherwise
     ex, exabs = mdl.integral()
     vol = float(np.prod([y_ - x_ for x_, y_ in zip(a, b)]))
-    gs = sum(4 * n[k] + mdl.r[k + 1] + 15 for k in range(d))
-    tsum = S * EPS * gs * U * vol + mdl.referr(exabs)
+    tsum = S * EPS * mdl.g_sum() * U * vol + mdl.referr(exabs)
     sym = all(x == -y_ for x, y_ in zip(a, b))
     asym = any(abs(x + y_) > 1e-3 * (y_ - x) for x, y_ in zip(a, b))
     got = None
@@ -693,16 +740,16 @@ def case_dense(case, ctx, teneva, rng):
         ctx.close('sum', teneva.func_sum(Att, fa, fb), ex, tsum,
             'func_sum vs the exact integral', box=[a, b], n=n)
 
-    ctx.check('args-unchanged', np.array_equal(Yd, Yd0),
-        'func_int_full modified its argument')
+    advisory_unchanged(ctx, np.array_equal(Yd, Yd0))
     if is_nontrivial(mdl):
         ctx.nontrivial(['dense', basis, mdl.struct, n, mdl.r, mdl.bkind])
-    ctx.sample({'family': 'dense', 'model': mdl.describe(),
+    sample_once(ctx, 'dense', {'family': 'dense', 'model': mdl.describe(),
         'box_kind': mdl.bkind, 'point': X[0],
         'func_get_full_observed': float(y[0]), 'f_reference': float(fX[0]),
-        'tolerance': float(tol[0]), 'symmetric_box': sym,
+        'tolerance': float(tol[0])},
+        more={'oracle': 'func_sum_full', 'symmetric_box': sym,
         'func_sum_full': 'ValueError' if raised else float(got),
-        'integral_reference': float(ex)})
+        'integral_reference': float(ex), 'integral_tolerance': float(tsum)})
 
 
 def case_diff(case, ctx, teneva, rng):
@@ -739,8 +786,12 @@ def case_diff(case, ctx, teneva, rng):
         worst = (q, float(np.max(np.abs(got - want))), float(tol))
     if n >= 3 and mdl.C[0][0, -1, 0] != 0:
         ctx.nontrivial(['diff', basis, n, m, mdl.bkind])
-    ctx.sample({'family': 'diff', 'model': mdl.describe(), 'orders': m,
-        'order_error_tolerance': worst})
+    sample_once(ctx, 'diff', {'family': 'diff', 'model': mdl.describe(),
+        'orders': m, 'highest_order (order, max error, tolerance)': worst},
+        more={'oracle': 'func_diff_matrix order 1', 'node_values': y,
+        'D1_times_values': D[0] @ y,
+        'exact_derivative': np.asarray(mdl.core_der(0, x, 1)[0, :, 0],
+        dtype=float)})
 
 
 def join(alpha, Y1, beta, Y2):
@@ -813,7 +864,7 @@ def case_lin(case, ctx, teneva, rng):
             'func_int changed the TT-ranks')
         # inverse: re-sampling on the same grid gives the data back
         UY = chain_mats(coef_abs(Y, F))
-        g = sum(13 * n[k] ** 2 + ref.ranks_of(Y)[k + 1] for k in range(d))
+        g = sum(g_core(n[k], 0., ref.ranks_of(Y)[k + 1]) for k in range(d))
         Z = teneva.func_gets(A, **({'kind': kind} if kind == 'sin' or
             rng.random() < .5 else {}))
         if well(ctx, Z, n, 'func_gets'):
@@ -825,27 +876,34 @@ def case_lin(case, ctx, teneva, rng):
                 ctx.close(mi, ref.dense_ld(Z1), ref.dense_ld(Y),
                     S * EPS * g * UY, 'func_gets(..., m=n, sin) vs Y', n=n)
         # linearity of the coefficient transform (as tensors)
-        # per core |da_j| <= (2n + 8) eps * max_i |y_i|-scale; the scale of
-        # the coefficient tensor is the chain of (2/(n-1)) sum_i |y_i|
+        # per core |da_j| <= (n + 8) eps ybar (model (a)), + 2 for the
+        # rounding of alpha*G, beta*G in W; the scale of the coefficient
+        # tensor is the chain of ybar = (2/(n-1)) sum_i |y_i|
         def ybar(T):
             return chain_mats([2 * np.sum(np.abs(np.asarray(G, dtype=LD)),
                 axis=1) / max(1, G.shape[1] - 1) for G in T])
-        gl = sum(n[k] / 2 + 2 + 2 + ref.ranks_of(W)[k + 1] for k in range(d))
+        gl = sum(n[k] + 8 + 2 for k in range(d))
         tl = S * EPS * gl * (ybar(W) + abs(al) * ybar(Y) + abs(be) * ybar(Y2))
         ctx.close(ml, ref.dense_ld(AW), al * ref.dense_ld(A)
             + be * ref.dense_ld(A2), tl,
             f'func_int(a Y + b Z, {kind}) vs a func_int(Y) + b func_int(Z)',
             alpha=al, beta=be, n=n)
     dd = snap.diff()
-    ctx.check('args-unchanged', not dd, f'func_int / func_gets modified an '
-        f'argument: {dd}')
+    advisory_unchanged(ctx, not dd)
     if max(n) >= 3 and max(ref.ranks_of(Y)) >= 2:
         ctx.nontrivial(['lin', n, ref.ranks_of(Y), r2, fam])
-    ctx.sample({'family': 'lin', 'shape': n, 'ranks': ref.ranks_of(Y),
-        'ranks_second': r2, 'alpha': al, 'beta': be,
+    AWs = teneva.func_int(W, kind='sin')
+    sample_once(ctx, 'lin', {'family': 'lin', 'shape': n,
+        'ranks': ref.ranks_of(Y), 'ranks_second': r2, 'alpha': al, 'beta': be,
         'Y_entry_0': float(ref.dense_ld(Y).reshape(-1)[0]),
         'resampled_entry_0': float(ref.dense_ld(teneva.func_gets(
-            teneva.func_int(Y))).reshape(-1)[0])})
+            teneva.func_int(Y))).reshape(-1)[0])},
+        more={'oracle': 'linearity, sine kind', 'shape': n, 'alpha': al,
+        'beta': be, 'coef_entry_0_of_combination':
+        float(ref.dense_ld(AWs).reshape(-1)[0]),
+        'combination_of_coef_entries_0': float(
+            al * ref.dense_ld(teneva.func_int(Y, kind='sin')).reshape(-1)[0]
+            + be * ref.dense_ld(teneva.func_int(Y2, kind='sin')).reshape(-1)[0])})
 
 
 def make_basis(name, n, lo, hi):
@@ -878,7 +936,9 @@ def case_general(case, ctx, teneva, rng):
             t = np.linspace(-1, 1, n) * 0.98
         t = t + rng.uniform(-0.3, 0.3, size=n) / n
         t = np.clip(t, -1, 1)
-        return rng.permutation((lo + hi) / 2 + t * (hi - lo) / 2)
+        # clipped: the affine map may round one ulp out of [lo, hi]
+        return rng.permutation(np.clip((lo + hi) / 2 + t * (hi - lo) / 2,
+            lo, hi))
     Xn = [pts()] * d if same else [pts() for _ in range(d)]
     H = [np.asarray(basis(x), dtype=float).T for x in Xn]     # [points, funcs]
     if any(len(set(x.tolist())) < n for x in Xn):
@@ -908,7 +968,15 @@ def case_general(case, ctx, teneva, rng):
     Ykeep = [G.copy() for G in Y]
 
     def fit(Xarg):
-        A = teneva.func_int_general(Y, Xarg, basis)
+        try:
+            A = teneva.func_int_general(Y, Xarg, basis)
+        except Exception as ex:
+            import traceback
+            ctx.viol('general', 'func_int_general raised '
+                f'{type(ex).__name__}: {ex}',
+                traceback=traceback.format_exc()[-1500:], basis=name, n=n,
+                d=d, ranks=r)
+            return None
         if not well(ctx, A, [n] * d, 'func_int_general'):
             return None
         return A
@@ -962,16 +1030,19 @@ def case_general(case, ctx, teneva, rng):
             ctx.check('general-get', yo[0] == -3. and yo[1] == -3. and
                 bool(abs(LD(yo[2]) - fX[2]) <= tol[2]),
                 'fill value / inside value with a user basis', got=yo)
-    # the caller's tensor must still hold the data for the next fit
-    same_data = all(np.array_equal(g_, h_) for g_, h_ in zip(Y, Ykeep))
-    ctx.check('general-data-intact', same_data, 'func_int_general destroyed '
-        'the cores of its argument (later fits use garbage)', ranks=r)
+    # advisory only (C09's subject): if a fit overwrote the caller's cores,
+    # the *next* fit above worked on garbage and 'general' has fired
+    advisory_unchanged(ctx, all(np.array_equal(g_, h_)
+        for g_, h_ in zip(Y, Ykeep)))
     if n >= 3:
         ctx.nontrivial(['general', name, n, d, r, same, struct])
-    ctx.sample({'family': 'general', 'basis': name, 'n': n, 'd': d,
-        'ranks': r, 'interval': [lo, hi], 'points_mode0': Xn[0],
+    sample_once(ctx, 'general', {'family': 'general', 'basis': name, 'n': n,
+        'd': d, 'ranks': r, 'interval': [lo, hi], 'points_mode0': Xn[0],
         'cond_design': cond, 'first_fit (X form, observed, reference, tol)':
-        first})
+        first},
+        more={'oracle': 'func_int_general, evaluation points', 'basis': name,
+        'n': n, 'evaluation_point': Xe[2], 'reference': float(fX[2]),
+        'tolerance': float(tol[2])})
 
 
 # ---- evidence: which lines of the anchored functions were executed -----------
